@@ -897,6 +897,40 @@ func genC11(p *Pkg) (map[string]string, error) {
 	}
 	b.WriteString("]\n\n")
 
+	// callability: where p.call / p.ctor are set and what typeof / IsCallable / IsConstructor read
+	b.WriteString("/-- normalised text of the code that decides whether a proxy is callable / a constructor -/\n")
+	b.WriteString("def callabilityTexts : List (String × String) := [\n")
+	{
+		nf := p.FuncDecl("Runtime", "_newProxyObject")
+		if nf == nil {
+			return nil, fmt.Errorf("_newProxyObject not found")
+		}
+		var parts []string
+		for _, st := range nf.Body.List {
+			if is, ok := st.(*ast.IfStmt); ok && is.Init != nil {
+				parts = append(parts, strings.Join(c11Tokenize(t.text(is)), " "))
+			}
+		}
+		fmt.Fprintf(&b, "  (%s, %s),\n", LeanString("_newProxyObject"), LeanString(strings.Join(parts, " ;; ")))
+		names := []string{"assertCallable", "assertConstructor", "typeOf", "apply", "construct"}
+		for i, name := range names {
+			fd := p.FuncDecl("proxyObject", name)
+			if fd == nil {
+				return nil, fmt.Errorf("method proxyObject.%s not found", name)
+			}
+			var bb bytes.Buffer
+			printer.Fprint(&bb, p.Fset, fd.Body)
+			txt := strings.Join(c11Tokenize(bb.String()), " ")
+			// error message wording is not decision structure
+			sep := ","
+			if i == len(names)-1 {
+				sep = ""
+			}
+			fmt.Fprintf(&b, "  (%s, %s)%s\n", LeanString(name), LeanString(c11DropStrings(txt)), sep)
+		}
+	}
+	b.WriteString("]\n\n")
+
 	// checkHandler itself: `if handler := p.handler; handler != nil { return handler }; panic(TypeError)`
 	ch := p.FuncDecl("proxyObject", "checkHandler")
 	rv := p.FuncDecl("proxyObject", "revoke")
@@ -911,6 +945,23 @@ func genC11(p *Pkg) (map[string]string, error) {
 
 	b.WriteString("end GojaModel.Generated.C11\n")
 	return map[string]string{"C11_Checks.lean": b.String()}, nil
+}
+
+// c11DropStrings blanks the contents of string literals (messages are not decision structure)
+func c11DropStrings(s string) string {
+	var out strings.Builder
+	in := false
+	for _, r := range s {
+		if r == '"' {
+			in = !in
+			out.WriteRune(r)
+			continue
+		}
+		if !in {
+			out.WriteRune(r)
+		}
+	}
+	return out.String()
 }
 
 func c11ShortName(path string) string {
